@@ -205,7 +205,9 @@ def run(ctx):
                 r4.ok(key, "", s.loc)
             else:
                 r4.violation(key, "a block is opened outside the windowed readers", s.loc)
-    wmc(r4, prog, r"^sender::blockencoder::BlockEncoder::read_block_(buffer|stream)$", [r"^sender::blockencoder::BlockEncoder::read_block$"])
+    # (read_window itself when the dispatcher read_block was folded into it - its only caller, checked by the next line while it exists)
+    wmc(r4, prog, r"^sender::blockencoder::BlockEncoder::read_block_(buffer|stream)$",
+        [r"^sender::blockencoder::BlockEncoder::read_block$"] + ([] if BE + "::read_block" in prog.funcs else [r"^sender::blockencoder::BlockEncoder::read_window$"]))
     wmc(r4, prog, r"^sender::blockencoder::BlockEncoder::read_block$", [r"^sender::blockencoder::BlockEncoder::read_window$"])
     w = prog.fn(BE + "::read_window")
     ctx.analysed(w.path)
